@@ -1776,18 +1776,50 @@ impl<'a> CompileState<'a> {
 
         let mut topo = TopoSort::new();
 
-        fn extract_struct_ident(item: &StructItem<FieldDefinition>) -> Option<&Identifier> {
+        /// All struct names a type mentions, also inside `option[..]` and `result[.., ..]`.
+        /// A struct that (transitively) contains itself through any of these is a cyclic
+        /// definition: no finite value of it can be described by the type checker.
+        fn struct_idents_in(vtype: &VType) -> Vec<&Identifier> {
+            fn walk<'t>(vtype: &'t VType, out: &mut Vec<&'t Identifier>) {
+                match &vtype.inner {
+                    TypeKind::Struct(ident) => out.push(&ident.inner),
+                    TypeKind::Optional(inner) => walk(inner, out),
+                    TypeKind::Result(result) => {
+                        walk(&result.ok, out);
+                        walk(&result.err, out);
+                    }
+                    _ => {}
+                }
+            }
+            let mut out = Vec::new();
+            walk(vtype, &mut out);
+            out
+        }
+
+        fn ffi_struct_idents_in<'t>(ty: &'t ffi::Type<'t>, out: &mut Vec<&'t Identifier>) {
+            match ty {
+                ffi::Type::Struct(ident) => out.push(ident),
+                ffi::Type::Optional(inner) => ffi_struct_idents_in(inner, out),
+                ffi::Type::Result(ok, err) => {
+                    ffi_struct_idents_in(ok, out);
+                    ffi_struct_idents_in(err, out);
+                }
+                _ => {}
+            }
+        }
+
+        fn extract_struct_idents(item: &StructItem<FieldDefinition>) -> Vec<&Identifier> {
             match item {
                 // { +Foo }
-                StructItem::StructRef(ident) => Some(&ident.inner),
-                // { field_name struct Foo }
-                StructItem::Field(field) => field.field_type.as_struct().map(|ident| &ident.inner),
+                StructItem::StructRef(ident) => vec![&ident.inner],
+                // { field_name struct Foo }, { field_name option[struct Foo] }, ...
+                StructItem::Field(field) => struct_idents_in(&field.field_type),
             }
         }
 
         // Create dependency graph.
         for struct_def in &self.policy.structs {
-            let deps = struct_def.items.iter().filter_map(extract_struct_ident);
+            let deps = struct_def.items.iter().flat_map(extract_struct_idents);
             let ident = &struct_def.identifier;
 
             insert_type_def(ident.clone(), UserType::Struct(struct_def))?;
@@ -1795,11 +1827,11 @@ impl<'a> CompileState<'a> {
         }
 
         for effect_def in &self.policy.effects {
-            let deps = effect_def.items.iter().filter_map(|item| match item {
+            let deps = effect_def.items.iter().flat_map(|item| match item {
                 // { +Foo }
-                StructItem::StructRef(ident) => Some(&ident.inner),
-                // { field_name struct Foo }
-                StructItem::Field(field) => field.field_type.as_struct().map(|ident| &ident.inner),
+                StructItem::StructRef(ident) => vec![&ident.inner],
+                // { field_name struct Foo }, { field_name option[struct Foo] }, ...
+                StructItem::Field(field) => struct_idents_in(&field.field_type),
             });
             let ident = &effect_def.identifier;
 
@@ -1810,7 +1842,7 @@ impl<'a> CompileState<'a> {
         for fact_def in &self.policy.facts {
             let deps = fact_def
                 .fields()
-                .filter_map(|def| def.field_type.as_struct().map(|ident| &ident.inner));
+                .flat_map(|def| struct_idents_in(&def.field_type));
             let ident = &fact_def.identifier;
 
             insert_type_def(ident.clone(), UserType::Fact(fact_def))?;
@@ -1818,7 +1850,7 @@ impl<'a> CompileState<'a> {
         }
 
         for command_def in &self.policy.commands {
-            let deps = command_def.fields.iter().filter_map(extract_struct_ident);
+            let deps = command_def.fields.iter().flat_map(extract_struct_idents);
             let ident = &command_def.identifier;
 
             insert_type_def(ident.clone(), UserType::Command(command_def))?;
@@ -1840,11 +1872,12 @@ impl<'a> CompileState<'a> {
                     .fields
                     .iter()
                     // struct field insertion is not implemented for FFI structs so we can't check for it
-                    .filter_map(|field| match field.vtype {
-                        // TODO(Steve): We don't have any relevant span info to pass in here because these types are defined outside of the policy.
-                        // Come up with a better way to handle this.
-                        ffi::Type::Struct(ref ident) => Some(ident),
-                        _ => None,
+                    // TODO(Steve): We don't have any relevant span info to pass in here because these types are defined outside of the policy.
+                    // Come up with a better way to handle this.
+                    .flat_map(|field| {
+                        let mut idents = Vec::new();
+                        ffi_struct_idents_in(&field.vtype, &mut idents);
+                        idents
                     });
                 let ident = Ident {
                     inner: ffi_struct_def.name.clone(),
